@@ -371,6 +371,8 @@ def owners_key(fn, key, exp, obs):
         return {"C17"}
     if key == "mon":
         for m in obs.get("mon", []):
+            if m[0] == 8:
+                return {"INFRA"}   # a call (form) the simulated kernel does not implement: no verdict, never an alarm
             own |= MON_OWNER.get(m[0], {"C14"})
         return own or {"C14"}
     if key in ("nfd", "nalloc"):
